@@ -837,6 +837,15 @@ class _AdaptiveStepRK(_RungeKuttaBase):
         if not hasattr(self, "_err_exp") or self._err_exp == 0:
             self._err_exp = 1.0 / (self._p)
 
+    def validate_inputs(self, system, y0, t_vals) -> None:
+        """Validate inputs; the adaptive drivers only step towards increasing time."""
+        super().validate_inputs(system, y0, t_vals)
+        if t_vals[-1] < t_vals[0]:
+            raise ValueError(
+                "Adaptive integrators require an increasing time grid; "
+                "reverse the vector field (e.g. _DirectedSystem) to integrate backward in time"
+            )
+
 
 @numba.njit(cache=False, fastmath=FASTMATH)
 def rk45_step_jit_kernel(f, t, y, h, A, B_HIGH, C, E):
